@@ -18,6 +18,16 @@ theorem C13_tables :
   rcases hn with rfl | rfl | rfl | rfl | rfl | rfl | rfl | rfl | rfl | rfl | rfl | rfl | rfl | rfl | rfl | rfl <;>
     simp [Generated.skipDirs]
 
+/-- **C13 (a directory is ignored by its exact name, or as `*.egg-info` — nothing else).** In particular a name that
+    only STARTS like an ignored one (`environments`, `venv311`, `builds`) is an ordinary directory. -/
+theorem C13_skip_iff (n : String) :
+    shouldSkipDir n = true ↔ (n ∈ Generated.skipDirs ∨ n.endsWith ".egg-info" = true) := by
+  simp [shouldSkipDir, Generated.skipSuffixes]
+
+example : "environments" ∉ Generated.skipDirs ∧ "venv311" ∉ Generated.skipDirs ∧ "builds" ∉ Generated.skipDirs ∧
+    ".venv-3.12" ∉ Generated.skipDirs ∧ "env_py310" ∉ Generated.skipDirs ∧
+    "venv" ∈ Generated.skipDirs ∧ "env" ∈ Generated.skipDirs := by decide
+
 /-- the file-name test is exactly the three documented patterns -/
 theorem C13_name_patterns (n : String) :
     isTestFileName n = true ↔ (n = "conftest.py" ∨ (n.startsWith "test_" = true ∧ n.endsWith ".py" = true) ∨
